@@ -44,7 +44,7 @@ PROPS = {
     "C09": dict(streams=[("C09", 0.7), ("C01", 0.3)], model=["M:classes", "M:levels", "M:paras"], quick=14000, thorough=3000000),
     "C10": dict(streams=[("C10", 0.7), ("C02", 0.3)], model=["M:classes", "M:levels", "M:paras"], quick=10000, thorough=2000000),
     "C11": dict(streams=[("C11", 0.8), ("STAGE", 0.2)],
-                model=["M:levels", "M:panic", "M:runs", "M:ro", "M:st-explicit", "M:st-neutral", "M:st-levels", "M:nohooks"], quick=1500, thorough=150000,
+                model=["M:levels", "M:panic", "M:runs", "M:ro", "M:st-explicit", "M:st-neutral", "M:st-levels", "M:nohooks"], quick=3000, thorough=150000,
                 spec_extra=["S:C01", "S:C02", "S:C05", "S:C06", "S:C07", "S:C08"]),
     "C12": dict(streams=[("C12", 1.0)], model=["M:classes", "M:levels", "M:paras", "M:basedir", "M:rl", "M:runs", "M:ro"], quick=16000, thorough=3000000,
                 spec_extra=["S:C01", "S:C02", "S:C03", "S:C05", "S:C06", "S:C16"]),
